@@ -23,6 +23,10 @@ pub struct Input {
     pub pre: Vec<Ins>,
     pub fail: Option<Fail>,
     pub post: Vec<Ins>,
+    /// 1..=3: wrap a failing input into an `ans` probe (an expression before it, an
+    /// expression in front of the failing statement, a use of `ans` after it)
+    #[serde(default)]
+    pub probe: u8,
 }
 
 #[derive(Clone, Debug, Serialize, Deserialize)]
@@ -35,8 +39,9 @@ fn input_strategy() -> impl Strategy<Value = Input> {
         proptest::collection::vec(ins_strategy(), 0..4),
         proptest::option::weighted(0.45, fail_strategy()),
         proptest::collection::vec(ins_strategy(), 0..2),
+        0u8..12,
     )
-        .prop_map(|(pre, fail, post)| Input { pre, fail, post })
+        .prop_map(|(pre, fail, post, probe)| Input { pre, fail, post, probe })
 }
 
 fn session_strategy() -> impl Strategy<Value = Session> {
@@ -53,14 +58,24 @@ fn render(s: &Session) -> Rendered {
     let mut env = Env::default();
     let mut out = vec![];
     for inp in &s.inputs {
+        let probe = if inp.fail.is_some() && (1..=3).contains(&inp.probe) { Some(ans_probe(&mut env, inp.probe)) } else { None };
+        if let Some((before, _, _)) = &probe {
+            out.push((before.clone(), None, vec![], vec![]));
+        }
         let before_names = env.all_names();
         let before_modules = env.modules.clone();
         let mut work = env.clone();
         let mut lines = vec![];
-        for i in &inp.pre {
-            lines.push(render_ins(i, &mut work));
+        // (probes 1 and 2: the failing input consists of expressions only)
+        if !matches!(inp.probe, 1 | 2) || probe.is_none() {
+            for i in &inp.pre {
+                lines.push(render_ins(i, &mut work));
+            }
         }
         let mut stage = None;
+        if let Some((_, inside, _)) = &probe {
+            lines.push(inside.clone());
+        }
         if let Some(f) = inp.fail {
             let (text, st) = render_fail(f, &mut work);
             lines.push(text);
@@ -81,6 +96,10 @@ fn render(s: &Session) -> Rendered {
             env.counter = work.counter;
         }
         out.push((lines.join("\n"), stage, names, modules));
+        if let Some((_, _, after)) = &probe {
+            out.push((after.clone(), None, vec![], vec![]));
+            env.vars.push((after.split_whitespace().nth(1).unwrap_or("").to_string(), Ty::Scalar));
+        }
     }
     Rendered { inputs: out }
 }
